@@ -1,3 +1,2 @@
 import PieModel.Props.C19
-open PieModel
-#print axioms C19_placeholder
+#print axioms PieModel.C19_placeholder
